@@ -40,6 +40,10 @@ def run(tier, rep, ev):
     ev.cov["negative_control_wrongmode"] = {"cfg": "ReadSessionMC_unguarded.cfg", "violated": ru.violated or "NOTHING"}
     if ru.ok:
         raise MachineryError("negative control failed: write calls that reach the caller's stream satisfy Untouched")
+    rx = tlc.run("ReadSessionMC", "ReadSessionMC_noextractreset.cfg", workers=4)
+    ev.cov["negative_control_extract"] = {"cfg": "ReadSessionMC_noextractreset.cfg", "violated": rx.violated or "NOTHING"}
+    if rx.ok:
+        raise MachineryError("negative control failed: extract() continuing with spent decoders satisfies Repeatable")
     rn = tlc.run("ReadSessionMC", "ReadSessionMC_noreset.cfg", workers=4)
     ev.cov["negative_control"] = {"cfg": "ReadSessionMC_noreset.cfg", "violated": rn.violated or "NOTHING"}
     if rn.ok:
@@ -64,7 +68,7 @@ def run(tier, rep, ev):
         for enc, tgt in variants:
             cases.append({"shape": shape, "calls": calls, "password": "pw" if enc else None, "target": tgt, "damaged": sorted(b["arch"].get("damaged", [])),
                           "ending": ["close", "with", "exception"][i % 3], "seed": i % 7, "coder": ["lzma2", "copy", "bzip2", "bcj+lzma2", "delta+lzma2", "deflate", "arm+lzma"][i % 7],
-                          "packcrc": (i // 3) % 2 == 0,
+                          "packcrc": (i // 3) % 2 == 0, "partialcrc": (i // 5) % 2 == 0,
                           "wd": os.path.join(base, f"s{len(cases)}")})
     # random longer sequences on random shapes
     names = ["getnames", "list", "getinfo", "archiveinfo", "test", "testzip", "extractall", "extract", "reset", "needs_password", "wrongmode"]
@@ -74,8 +78,8 @@ def run(tier, rep, ev):
         calls, dirty = [], False
         for _ in range(5):
             nm = R.choice(names)
-            if nm in ("extract", "extractall") and dirty:
-                calls.append({"name": "reset"})
+            if nm in ("extract", "extractall") and dirty and i % 2:
+                calls.append({"name": "reset"})           # (half of the sessions: since extract() starts afresh by itself nothing depends on it)
                 dirty = False
             if nm in ("extract", "extractall", "testzip"):
                 dirty = True
@@ -87,7 +91,7 @@ def run(tier, rep, ev):
         dmg = [R.randrange(1, shape["nfolders"] + 1)] if shape["nfolders"] and R.random() < 0.3 else []
         cases.append({"shape": shape, "calls": calls, "password": R.choice([None, None, "pw"]), "target": R.choice(["path", "stream"]), "damaged": dmg,
                       "ending": R.choice(["close", "with", "exception"]), "seed": i, "coder": R.choice(["lzma2", "copy", "deflate", "bzip2", "bcj+lzma2", "delta+lzma2", "bcj+bzip2", "ppc+lzma2"]),
-                      "packcrc": R.random() < 0.5,
+                      "packcrc": R.random() < 0.5, "partialcrc": i % 3 == 0,
                       "wd": os.path.join(base, f"r{i}")})
     ev.sample({"tlc_sequence": behs[len(behs) // 2]["calls"]})
     _read.run_and_validate("C12", cases, rep, ev, validate)
